@@ -41,7 +41,8 @@ RULE = (
     "or a Parent / Child detached from another session after drawn steps (load collections or not, expire some attributes, set some attributes, remove / append "
     "children); target session prepared by drawn steps (load identities, load collections, set attributes to other values); merge(load=True|False), then merged again. "
     "Non-trivial: the source is partially loaded (some column attribute or relationship absent from it) and the target session already holds at least one of its "
-    "identities with a different value for an attribute the source carries; distinct = canonical JSON of the case"
+    "identities with a different value for an attribute the source carries (load=False: holds one of its identities at all - values cannot differ for a clean source); "
+    "distinct = canonical JSON of the case"
 )
 ASSUMPTIONS = [
     "'loaded on the source' is read from the source instance's __dict__ before the merge (input data, produced by ordinary loading / attribute assignment)",
@@ -105,10 +106,12 @@ class _Case:
     # ------------------------------------------------------------ source construction
     def _pid(self, idx):
         """parent id for a source index: existing ids first, then fresh ones"""
-        return idx % (self.n_p + 1) + 1
+        i = idx % (self.n_p + 1) + 1
+        return i if i <= self.n_p else -i  # fresh explicit keys are negative: clear of the max(id)+1 that PK-less objects receive
 
     def _cid(self, idx):
-        return idx % (self.n_c + 2) + 1
+        i = idx % (self.n_c + 2) + 1
+        return i if i <= self.n_c else -i
 
     def _mk_child(self, spec):
         fam = self.fam
@@ -143,16 +146,22 @@ class _Case:
             if len(kw) - ("id" in kw) < 3:
                 self.src_partial = True
             src = fam.Parent(**kw)
-            if spec["children"] is not None:
-                kids = [self._mk_child(cs) for cs in spec["children"]]
-                if spec.get("dup") and spec["children"] and spec["children"][0]["id"] is not None:
-                    kids.append(fam.Child(id=self._cid(spec["children"][0]["id"]), x=spec["dup"] % 4 + 4))
+            cspecs = spec["children"]
+            if spec.get("dup"):
+                # the same identity twice in one collection: two distinct source objects with one primary key
+                cspecs = list(cspecs or [{"id": spec["dup"], "attrs": []}])
+                if cspecs[0]["id"] is None:
+                    cspecs[0] = {"id": spec["dup"], "attrs": cspecs[0]["attrs"]}
+            if cspecs is not None:
+                kids = [self._mk_child(cs) for cs in cspecs]
+                if spec.get("dup"):
+                    kids.append(fam.Child(id=self._cid(cspecs[0]["id"]), x=spec["dup"] % 4 + 4))
                     self.classes.add("same-identity-twice")
                 src.children = kids
             else:
                 self.src_partial = True
             if spec["tags"] is not None and self.n_t:
-                src.tags = [fam.Tag(id=t % self.n_t + 1) for t in dict.fromkeys(spec["tags"])]
+                src.tags = [fam.Tag(id=t) for t in dict.fromkeys(t % self.n_t + 1 for t in spec["tags"])]
             else:
                 self.src_partial = True
             self.src_dirty = True  # transient objects are never 'clean'
@@ -210,6 +219,17 @@ class _Case:
     def prepare_target(self, s1, skip):
         fam = self.fam
         self.t_set = {}  # (kind, id, attr) -> pending value set by the harness in the target session
+        self.t_keep = []  # the application keeps what it loaded (the identity map only references weakly)
+        _get = s1.get
+
+        class _S:  # every object the preparation obtains is kept referenced
+            @staticmethod
+            def get(cls, ident, _keep=self.t_keep):
+                o = _get(cls, ident)
+                _keep.append(o)
+                return o
+
+        s1 = _S
         if skip:
             return
         spec = self.case["source"]
@@ -229,13 +249,18 @@ class _Case:
                 self.classes.add("target-holds-identity")
                 if k == "rootset" and self.case["load"]:
                     cols = PCOLS if root[0] == "parent" else CCOLS
-                    a = cols[op[1] % len(cols)]
+                    if spec["kind"] == "tp":
+                        carried = [PCOLS[ai % 3] for ai, _v in spec["attrs"]]
+                    else:
+                        carried = [c for i, c in enumerate(cols) if not spec["expire"] >> i & 1]
+                    a = (carried or cols)[op[1] % len(carried or cols)]  # prefer an attribute the source carries
                     v = op[2] + 4 if a != "name" else NAMES[(NAMES.index(self.db[root[0]][root[1]]["name"]) + 1 + op[2] % 3) % 4]
                     setattr(o, a, v)
                     self.t_set[(root[0], root[1], a)] = v
                     self.classes.add("target-modified")
                 elif k == "rootkid" and root[0] == "parent":
                     kids = list(o.children)
+                    self.t_keep.extend(kids)
                     self.classes.add("target-collection-loaded")
                     if kids and self.case["load"]:
                         c = kids[op[1] % len(kids)]
@@ -369,7 +394,8 @@ def check(case, ctx):
                     for a, v in cols.items():
                         if a != "id" and a in held and held[a] != v:
                             differs = True
-            nontrivial = k.src_partial and differs
+            held_any = any(k.prior_loaded.get((_kind(o), cols.get("id"))) is not None for o, cols, rels in src_graph)
+            nontrivial = k.src_partial and (differs or (not load and held_any and not graph_dirty))
             if differs:
                 k.classes.add("target-differs")
             if k.src_partial:
@@ -377,11 +403,28 @@ def check(case, ctx):
 
             # ---- merge
             cap = Capture(k.eng)
+            n_events = [0]
+            listeners = []
+            if not load:
+                # "forego emitting history events": count attribute set events on the target classes while merging
+                from sqlalchemy import event
+
+                def _on_set(target, value, oldvalue, initiator):
+                    n_events[0] += 1
+
+                for cls, cols in ((fam.Parent, PCOLS), (fam.Child, CCOLS)):
+                    for a in cols:
+                        event.listen(getattr(cls, a), "set", _on_set)
+                        listeners.append((getattr(cls, a), "set", _on_set))
             try:
-                merged = s1.merge(src, load=load)
-                err = None
-            except InvalidRequestError as e:
-                merged, err = None, str(e)
+                try:
+                    merged = s1.merge(src, load=load)
+                    err = None
+                except InvalidRequestError as e:
+                    merged, err = None, str(e)
+            finally:
+                for args in listeners:
+                    event.remove(*args)
             n_sql = len(cap.rows)
             cap.close()
 
@@ -397,6 +440,8 @@ def check(case, ctx):
             if not load:
                 if n_sql:
                     fail("C45/load=False/sql-emitted", f"merge(load=False) emitted {n_sql} statement(s)", observed=n_sql, expected=0)
+                if n_events[0]:
+                    fail("C45/load=False/attribute-events-emitted", f"merge(load=False) fired {n_events[0]} attribute set event(s)", observed=n_events[0], expected=0)
                 if merged in s1.dirty or s1.is_modified(merged):
                     fail("C45/load=False/result-flagged-modified", "merge(load=False) result is in session.dirty / is_modified")
 
@@ -410,6 +455,7 @@ def check(case, ctx):
             # ---- walk source and target in parallel
             pairs = []  # (source obj, target obj)
             memo = {}
+            by_ident = {}
             exp_rows = {"parent": {}, "child": {}, "tag": {}}  # (kind) -> target obj id() -> expected column values
             exp_children = {}  # id(target parent) -> [target children]
             exp_tags = {}
@@ -430,6 +476,9 @@ def check(case, ctx):
                     fail("C45/identity/target-not-in-session", f"{path}: merged {t_obj!r} is not in the target session")
                 sid = s_obj.__dict__.get("id")
                 if sid is not None:
+                    other = by_ident.setdefault((kind, sid), t_obj)
+                    if other is not t_obj:
+                        fail("C45/identity/one-key-two-targets", f"{path}: two source objects with key {kind}#{sid} were merged onto two different instances")
                     was = prior_instances.get((kind, sid))
                     if was is not None and was is not t_obj:
                         fail("C45/identity/second-instance", f"{path}: the session already held {kind}#{sid} but merge produced another instance")
@@ -574,6 +623,7 @@ def check(case, ctx):
                     fail("C45/identity/not-the-identity-map-instance", f"{path}: after commit the merged object is not session.identity_map[key]")
     finally:
         k._keepalive = None
+        k.t_keep = None
         k.close()
 
 
@@ -598,15 +648,15 @@ def _cases(draw):
         "links": [[draw(st.integers(0, 2)), draw(st.integers(0, 1))] for _ in range(draw(st.integers(0, 2)))],
         "load": draw(st.sampled_from([1, 1, 1, 0])),
     }
-    kind = draw(st.sampled_from(["tp", "tp", "tn", "dp", "dp", "dp", "dc"]))
+    kind = draw(st.sampled_from(["tp", "tp", "tp", "tn", "dp", "dp", "dp", "dp", "dc"]))
     if not case["load"]:
         kind = draw(st.sampled_from(["dp", "dp", "dp", "dc", "tp"]))
     spec = {"kind": kind, "idx": draw(st.integers(0, 3))}
     if kind in ("tp", "tn"):
-        spec["attrs"] = draw(_attrs(3))
+        spec["attrs"] = draw(_attrs(3).filter(lambda l: len(l) >= 1)) if draw(st.integers(0, 3)) else []
         spec["children"] = draw(st.one_of(st.none(), st.lists(_child_spec(), max_size=3)))
         spec["tags"] = draw(st.one_of(st.none(), st.lists(st.integers(0, 1), max_size=2)))
-        spec["dup"] = draw(st.sampled_from([0, 0, 0, 1, 2]))
+        spec["dup"] = draw(st.sampled_from([0, 0, 1, 2]))
     else:
         clean = not case["load"] and draw(st.integers(0, 3)) > 0
         spec["load_children"] = draw(st.booleans())
@@ -619,7 +669,12 @@ def _cases(draw):
         spec["add_child"] = None if clean else draw(st.one_of(st.none(), _child_spec()))
     case["source"] = spec
     tops = []
-    for _ in range(draw(st.integers(0, 5))):
+    if case["load"] and draw(st.integers(0, 7)):
+        # most cases: the target session already holds the root identity with a pending change (and often its children)
+        tops.append(["rootset", draw(st.integers(0, 2)), draw(_v)])
+        if draw(st.booleans()):
+            tops.append(["rootkid", draw(st.integers(0, 2)), draw(_v)])
+    for _ in range(draw(st.integers(0, 4))):
         t = draw(st.sampled_from(["load", "coll", "set", "root", "rootset", "rootset", "rootset", "rootkid", "rootkid"]))
         if t in ("root", "rootset", "rootkid"):
             tops.append([t, draw(st.integers(0, 2)), draw(_v)])
